@@ -9,7 +9,8 @@
 (* and the marker segments SOC SIZ COD QCD SOT SOD EOC (A).  It shares     *)
 (* nothing with the library; its codestreams are replayed into the         *)
 (* library's DECODER (reverse direction of the JPEG 2000 round trips).     *)
-(* Scope: one tile at the origin, 1 or 3 components without sub-sampling,  *)
+(* Scope: any tile grid anchored at the origin (absolute coordinates, odd    *)
+(* tile origins included), 1 or 3 components without sub-sampling,          *)
 (* unsigned samples of precision P, NL decomposition levels, code-block    *)
 (* style 0.                                                                *)
 (***************************************************************************)
@@ -35,14 +36,20 @@ Colour(img, mct) ==
   ELSE s
 Wavelet(plane, w, h, nl) == D!FwdML(plane, w, h, 0, 0, nl)          \* Mallat layout, tile at the origin
 
-\* sub-band ob of resolution r inside the Mallat layout: [x0, y0, w, h]
-BandBox(w, h, nl, r, ob) ==
-  IF r = 0 THEN [x0 |-> 0, y0 |-> 0, w |-> CeilDiv(w, 2^nl), h |-> CeilDiv(h, 2^nl)]
+\* Mallat geometry of a window [o, o + n) after k levels (F.3.1 with origin parity): <<origin, length>> of the low part
+RECURSIVE LowWin(_, _, _)
+LowWin(o, n, k) == IF k = 0 THEN <<o, n>> ELSE LowWin(D!CeilHalf(o), D!LowLen(n, o), k - 1)
+\* sub-band ob of resolution r of a tile-component window (x0, y0, w, h): position inside the Mallat layout [x0, y0, w, h]
+\* and absolute band coordinates ax0, ay0 (B-15)
+BandBox(tx0, ty0, w, h, nl, r, ob) ==
+  IF r = 0 THEN LET lx == LowWin(tx0, w, nl)  ly == LowWin(ty0, h, nl) IN
+                [x0 |-> 0, y0 |-> 0, w |-> lx[2], h |-> ly[2], ax0 |-> lx[1], ay0 |-> ly[1]]
   ELSE LET nb == nl - r + 1
-           lw == CeilDiv(w, 2^nb)  lh == CeilDiv(h, 2^nb)
-           ww == CeilDiv(w, 2^(nb - 1))  wh == CeilDiv(h, 2^(nb - 1))
-       IN [x0 |-> IF ob[1] = 1 THEN lw ELSE 0, y0 |-> IF ob[2] = 1 THEN lh ELSE 0,
-           w |-> IF ob[1] = 1 THEN ww - lw ELSE lw, h |-> IF ob[2] = 1 THEN wh - lh ELSE lh]
+           px == LowWin(tx0, w, nb - 1)  py == LowWin(ty0, h, nb - 1)           \* the window that level nb splits
+           lx == LowWin(tx0, w, nb)  ly == LowWin(ty0, h, nb)
+       IN [x0 |-> IF ob[1] = 1 THEN lx[2] ELSE 0, y0 |-> IF ob[2] = 1 THEN ly[2] ELSE 0,
+           w |-> IF ob[1] = 1 THEN px[2] - lx[2] ELSE lx[2], h |-> IF ob[2] = 1 THEN py[2] - ly[2] ELSE ly[2],
+           ax0 |-> IF ob[1] = 1 THEN px[1] \div 2 ELSE lx[1], ay0 |-> IF ob[2] = 1 THEN py[1] \div 2 ELSE ly[1]]
 Orient(r, ob) == IF r = 0 THEN 0 ELSE IF ob = <<1, 0>> THEN 1 ELSE IF ob = <<0, 1>> THEN 2 ELSE 3
 GainLog(r, ob) == IF r = 0 THEN 0 ELSE ob[1] + ob[2]
 
@@ -51,12 +58,15 @@ GainLog(r, ob) == IF r = 0 THEN 0 ELSE ob[1] + ob[2]
 (***************************************************************************)
 Blocks(coef, bx, xcb, ycb, orient) ==
   IF bx.w = 0 \/ bx.h = 0 THEN [ncw |-> 0, nch |-> 0, cbs |-> <<>>]
-  ELSE LET ncw == CeilDiv(bx.w, 2^xcb)  nch == CeilDiv(bx.h, 2^ycb)
+  ELSE LET gx == bx.ax0 \div 2^xcb  gy == bx.ay0 \div 2^ycb                 \* the code-block grid is anchored at the band origin 0 (B.7)
+           ncw == CeilDiv(bx.ax0 + bx.w, 2^xcb) - gx  nch == CeilDiv(bx.ay0 + bx.h, 2^ycb) - gy
            one(j) == LET cx == (j - 1) % ncw  cy == (j - 1) \div ncw
-                         x0 == cx * 2^xcb  y0 == cy * 2^ycb
-                         cw == IF x0 + 2^xcb <= bx.w THEN 2^xcb ELSE bx.w - x0
-                         ch == IF y0 + 2^ycb <= bx.h THEN 2^ycb ELSE bx.h - y0
-                         src == [i \in 1..(cw * ch) |-> coef[bx.y0 + y0 + ((i - 1) \div cw) + 1][bx.x0 + x0 + ((i - 1) % cw) + 1]]
+                         a0 == IF (gx + cx) * 2^xcb > bx.ax0 THEN (gx + cx) * 2^xcb ELSE bx.ax0
+                         a1 == IF (gx + cx + 1) * 2^xcb < bx.ax0 + bx.w THEN (gx + cx + 1) * 2^xcb ELSE bx.ax0 + bx.w
+                         b0 == IF (gy + cy) * 2^ycb > bx.ay0 THEN (gy + cy) * 2^ycb ELSE bx.ay0
+                         b1 == IF (gy + cy + 1) * 2^ycb < bx.ay0 + bx.h THEN (gy + cy + 1) * 2^ycb ELSE bx.ay0 + bx.h
+                         cw == a1 - a0  ch == b1 - b0
+                         src == [i \in 1..(cw * ch) |-> coef[bx.y0 + (b0 - bx.ay0) + ((i - 1) \div cw) + 1][bx.x0 + (a0 - bx.ax0) + ((i - 1) % cw) + 1]]
                          e == T!EncodeBlock([w |-> cw, h |-> ch, orient |-> orient, style |-> 0], src)
                      IN [w |-> cw, h |-> ch, src |-> src, P |-> e.P, bytes |-> IF e.P = 0 THEN <<>> ELSE e.segs[1].bytes]
        IN [ncw |-> ncw, nch |-> nch, cbs |-> [j \in 1..(ncw * nch) |-> one(j)]]
@@ -138,22 +148,32 @@ U16b(v) == <<v \div 256, v % 256>>
 U32b(v) == <<v \div 16777216, (v \div 65536) % 256, (v \div 256) % 256, v % 256>>
 SegJ(m, body) == <<255, m>> \o U16b(Len(body) + 2) \o body
 Guard == 2
-Siz(img) == SegJ(81, U16b(0) \o U32b(img.w) \o U32b(img.h) \o U32b(0) \o U32b(0) \o U32b(img.w) \o U32b(img.h) \o U32b(0) \o U32b(0)
+Siz(img, cd) == SegJ(81, U16b(0) \o U32b(img.w) \o U32b(img.h) \o U32b(0) \o U32b(0) \o U32b(cd.tw) \o U32b(cd.th) \o U32b(0) \o U32b(0)
                      \o U16b(img.nc) \o FlatSeq([c \in 1..img.nc |-> <<img.P - 1, 1, 1>>], 1, <<>>))
 Cod(img, cd) == SegJ(82, <<0, 0>> \o U16b(1) \o <<IF img.nc = 3 /\ cd.mct THEN 1 ELSE 0, cd.nl, cd.xcb - 2, cd.ycb - 2, 0, 1>>)
 BandsOfRes(r) == IF r = 0 THEN << <<0, 0>> >> ELSE << <<1, 0>>, <<0, 1>>, <<1, 1>> >>
 Qcd(img, cd) == SegJ(92, <<Guard * 32>> \o FlatSeq([r \in 1..(cd.nl + 1) |-> [b \in 1..Len(BandsOfRes(r - 1)) |-> (img.P + GainLog(r - 1, BandsOfRes(r - 1)[b])) * 8]], 1, <<>>))
-Encode(img, cd) ==
-  LET planes == Colour(img, cd.mct)
-      coef == [c \in 1..img.nc |-> Wavelet(planes[c], img.w, img.h, cd.nl)]
+\* packets of one tile [x0, y0, x1, y1] (LRCP, one layer): resolution, then component
+TileData(planes, img, cd, t) ==
+  LET w == t.x1 - t.x0  h == t.y1 - t.y0
+      win(c) == [y \in 1..h |-> [x \in 1..w |-> planes[c][t.y0 + y][t.x0 + x]]]
+      coef == [c \in 1..img.nc |-> D!FwdML(win(c), w, h, t.x0, t.y0, cd.nl)]
       pkt(r, c) == LET obs == BandsOfRes(r)
-                       bands == [b \in 1..Len(obs) |-> Blocks(coef[c], BandBox(img.w, img.h, cd.nl, r, obs[b]), cd.xcb, cd.ycb, Orient(r, obs[b]))]
+                       bands == [b \in 1..Len(obs) |-> Blocks(coef[c], BandBox(t.x0, t.y0, w, h, cd.nl, r, obs[b]), cd.xcb, cd.ycb, Orient(r, obs[b]))]
                        Mbs == [b \in 1..Len(obs) |-> Guard + img.P + GainLog(r, obs[b]) - 1]
                    IN PacketOf(bands, Mbs, 1, <<>>, <<>>, FALSE)
-      \* LRCP with one layer: resolution, then component; a resolution of zero extent has no packet (B.6)
-      exists(r) == CeilDiv(img.w, 2^(cd.nl - r)) > 0 /\ CeilDiv(img.h, 2^(cd.nl - r)) > 0
-      data == FlatSeq([k \in 1..((cd.nl + 1) * img.nc) |-> LET r == (k - 1) \div img.nc  c == ((k - 1) % img.nc) + 1 IN IF exists(r) THEN pkt(r, c) ELSE <<>>], 1, <<>>)
-      head == <<255, 79>> \o Siz(img) \o Cod(img, cd) \o Qcd(img, cd)
-      sot == <<255, 144>> \o U16b(10) \o U16b(0) \o U32b(14 + Len(data)) \o <<0, 1>>
-  IN head \o sot \o <<255, 147>> \o data \o <<255, 217>>
+      \* a resolution of zero extent has no precinct and no packet (B.6)
+      exists(r) == LowWin(t.x0, w, cd.nl - r)[2] > 0 /\ LowWin(t.y0, h, cd.nl - r)[2] > 0
+  IN FlatSeq([k \in 1..((cd.nl + 1) * img.nc) |-> LET r == (k - 1) \div img.nc  c == ((k - 1) % img.nc) + 1 IN IF exists(r) THEN pkt(r, c) ELSE <<>>], 1, <<>>)
+Tiles(img, cd) ==
+  LET ntx == CeilDiv(img.w, cd.tw)  nty == CeilDiv(img.h, cd.th) IN
+  [k \in 1..(ntx * nty) |-> LET p == (k - 1) % ntx  q == (k - 1) \div ntx IN
+     [x0 |-> p * cd.tw, y0 |-> q * cd.th, x1 |-> IF (p + 1) * cd.tw < img.w THEN (p + 1) * cd.tw ELSE img.w, y1 |-> IF (q + 1) * cd.th < img.h THEN (q + 1) * cd.th ELSE img.h]]
+Encode(img, cd) ==
+  LET planes == Colour(img, cd.mct)
+      ts == Tiles(img, cd)
+      part(k) == LET data == TileData(planes, img, cd, ts[k]) IN
+                 <<255, 144>> \o U16b(10) \o U16b(k - 1) \o U32b(14 + Len(data)) \o <<0, 1>> \o <<255, 147>> \o data
+      head == <<255, 79>> \o Siz(img, cd) \o Cod(img, cd) \o Qcd(img, cd)
+  IN head \o FlatSeq([k \in 1..Len(ts) |-> part(k)], 1, <<>>) \o <<255, 217>>
 =============================================================================
